@@ -234,63 +234,110 @@ def cg_conv(rng, tier):
                 bound='n <= 40, kappa <= 1e3', failures=fails[:5], samples=samples)
 
 
+_SPARSE_CHILD = r"""
+import sys, json, warnings
+warnings.filterwarnings('ignore')
+import torch
+from pypose.sparse.ops import bsr_bsc_matmul, _sparse_csr_mm
+def compressed_ok(res, rows=None, cols=None):
+    crow, col, val = res.crow_indices(), res.col_indices(), res.values()
+    ok = int(crow[0]) == 0 and int(crow[-1]) == col.numel() == val.shape[0] and bool((crow[1:] >= crow[:-1]).all())
+    if rows is not None: ok = ok and crow.numel() == rows + 1
+    if cols is not None and col.numel(): ok = ok and 0 <= int(col.min()) and int(col.max()) < cols
+    return ok, dict(crow=crow.tolist(), col=col.tolist(), n_values=int(val.shape[0]))
+for line in sys.stdin:
+    c = json.loads(line)
+    print(json.dumps(dict(start=c['k'])), flush=True)
+    g = torch.Generator().manual_seed(c['seed'])
+    out = dict(k=c['k'])
+    try:
+        if c['kind'] == 'blocks':
+            p1, p2, (dm, dn, dp) = c['p1'], c['p2'], c['bs']
+            def dense_from(pattern, bs_r, bs_c):
+                D = torch.zeros(len(pattern) * bs_r, len(pattern[0]) * bs_c, dtype=torch.float64)
+                for i in range(len(pattern)):
+                    for j in range(len(pattern[0])):
+                        if pattern[i][j]: D[i * bs_r:(i + 1) * bs_r, j * bs_c:(j + 1) * bs_c] = torch.randn(bs_r, bs_c, dtype=torch.float64, generator=g)
+                return D
+            D1, D2 = dense_from(p1, dm, dn), dense_from(p2, dn, dp)
+            res = bsr_bsc_matmul(D1.to_sparse_bsr((dm, dn)), D2.to_sparse_bsc((dn, dp)))
+            ok, info = compressed_ok(res, len(p1), len(p2[0]))
+            if not ok or tuple(res.shape) != tuple((D1 @ D2).shape): out.update(fail='bsr_bsc_invalid_structure', **info)
+            elif not torch.allclose(res.to_dense(), D1 @ D2, atol=1e-12): out.update(fail='bsr_bsc_product')
+        else:
+            l1, l2, (n, m, p) = c['l1'], c['l2'], c['dims']
+            D1 = torch.randn(n, m, dtype=torch.float64, generator=g) * (torch.rand(n, m, generator=g) < 0.6)
+            D2 = torch.randn(m, p, dtype=torch.float64, generator=g) * (torch.rand(m, p, generator=g) < 0.6)
+            conv = dict(csr=lambda d: d.to_sparse_csr(), csc=lambda d: d.to_sparse_csc(), dense=lambda d: d,
+                        bsr=lambda d: d.to_sparse_bsr((2, 2)), bsc=lambda d: d.to_sparse_bsc((2, 2)))
+            res = _sparse_csr_mm(conv[l1](D1), conv[l2](D2))
+            if res.layout in (torch.sparse_bsr, torch.sparse_csr):
+                ok, info = compressed_ok(res)
+                if not ok: out.update(fail='sparse_mm_invalid_structure', **info)
+            if 'fail' not in out:
+                res = res.to_dense() if res.layout != torch.strided else res
+                if not torch.allclose(res, D1 @ D2, atol=1e-12): out.update(fail='sparse_mm_layout')
+    except Exception as e:
+        out.update(fail='raises', error=f'{type(e).__name__}: {e}'[:200])
+    print(json.dumps(out), flush=True)
+"""
+
+
 @bounded('C10.sparse_products', functions=['pypose.sparse.ops:bsr_bsc_matmul', 'pypose.sparse.ops:_sparse_csr_mm'])
 def sparse(rng, tier):
     """real code: every block pattern of a (<=3 x <=3 blocks) BSR times (<=3 x <=3 blocks) BSC, block sizes 1..3 (exhaustive in the patterns
-    for 2x2 block grids, sampled beyond), equals the dense product; CSR/CSC/dense layout pairs of _sparse_csr_mm"""
-    import torch, itertools
-    from pypose.sparse.ops import bsr_bsc_matmul, _sparse_csr_mm
-    fails = []; evals = 0; samples = []
-    g = torch.Generator().manual_seed(rng.randrange(1 << 30))
-    def dense_from(pattern, bs_r, bs_c):
-        sm, sn = len(pattern), len(pattern[0])
-        D = torch.zeros(sm * bs_r, sn * bs_c, dtype=torch.float64)
-        for i in range(sm):
-            for j in range(sn):
-                if pattern[i][j]:
-                    D[i * bs_r:(i + 1) * bs_r, j * bs_c:(j + 1) * bs_c] = torch.randn(bs_r, bs_c, dtype=torch.float64, generator=g)
-        return D
+    for 2x2 block grids, a third of the 2x2 times 2x3 grids, sampled beyond), equals the dense product and is a structurally valid BSR tensor;
+    CSR/CSC/dense layout pairs of _sparse_csr_mm.  The cases run in a child interpreter: an input on which the real code kills the interpreter
+    (heap corruption in torch's sparse kernels after an inconsistent result) is reported as a failing input, not as a checker error."""
+    import itertools, subprocess, sys, json, os
     grids = []
     for pat1 in itertools.product([0, 1], repeat=4):
         for pat2 in itertools.product([0, 1], repeat=4):
             grids.append(([list(pat1[0:2]), list(pat1[2:4])], [list(pat2[0:2]), list(pat2[2:4])]))
+    for pat1 in itertools.product([0, 1], repeat=4):
+        for pat2 in itertools.product([0, 1], repeat=6):
+            if sum(pat1) and sum(pat2) and (sum(pat1) + sum(pat2)) % 3 == 0:
+                grids.append(([list(pat1[0:2]), list(pat1[2:4])], [list(pat2[0:3]), list(pat2[3:6])]))
     extra = 30 if tier == 'quick' else 400
     for _ in range(extra):
         sm, sn, sp = rng.randrange(1, 4), rng.randrange(1, 4), rng.randrange(1, 4)
         dens = rng.choice([0.0, 0.3, 0.7, 1.0])
         grids.append(([[int(rng.random() < dens) for _ in range(sn)] for _ in range(sm)], [[int(rng.random() < dens) for _ in range(sp)] for _ in range(sn)]))
+    cases = []
+    sizes = ((1, 1, 1), (2, 2, 2), (2, 3, 1)) if tier == 'quick' else ((1, 1, 1), (2, 2, 2), (2, 3, 1), (3, 1, 2), (4, 4, 4))
     for p1, p2 in grids:
-        for (dm, dn, dp) in ((1, 1, 1), (2, 2, 2), (2, 3, 1)) if tier == 'quick' else ((1, 1, 1), (2, 2, 2), (2, 3, 1), (3, 1, 2), (4, 4, 4)):
-            D1, D2 = dense_from(p1, dm, dn), dense_from(p2, dn, dp)
-            try:
-                bsr = D1.to_sparse_bsr((dm, dn)); bsc = D2.to_sparse_bsc((dn, dp))
-                out = bsr_bsc_matmul(bsr, bsc).to_dense()
-                evals += 1
-                if not torch.allclose(out, D1 @ D2, atol=1e-12):
-                    fails.append(dict(clause='bsr_bsc_product', signature=f'{p1}x{p2} blocks {dm},{dn},{dp}'))
-            except Exception as e:
-                fails.append(dict(clause='bsr_bsc_raises', signature=f'{p1}x{p2} blocks {dm},{dn},{dp}', error=f'{type(e).__name__}: {e}'[:200]))
-            if len(fails) > 5: break
-        if len(fails) > 5: break
-    # layout pairs of _sparse_csr_mm
+        for bs in sizes:
+            cases.append(dict(kind='blocks', p1=p1, p2=p2, bs=list(bs), seed=rng.randrange(1 << 30)))
     for l1, l2 in (('csr', 'csr'), ('csr', 'csc'), ('csc', 'csr'), ('csc', 'csc'), ('csr', 'dense'), ('csc', 'dense'), ('bsr', 'bsc')):
         for _ in range(5):
-            n, m, p = rng.randrange(1, 5) * 2, rng.randrange(1, 5) * 2, rng.randrange(1, 5) * 2
-            D1 = torch.randn(n, m, dtype=torch.float64, generator=g) * (torch.rand(n, m, generator=g) < 0.6)
-            D2 = torch.randn(m, p, dtype=torch.float64, generator=g) * (torch.rand(m, p, generator=g) < 0.6)
-            conv = dict(csr=lambda d: d.to_sparse_csr(), csc=lambda d: d.to_sparse_csc(), dense=lambda d: d,
-                        bsr=lambda d: d.to_sparse_bsr((2, 2)), bsc=lambda d: d.to_sparse_bsc((2, 2)))
-            try:
-                out = _sparse_csr_mm(conv[l1](D1), conv[l2](D2))
-                out = out.to_dense() if out.layout != torch.strided else out
-                evals += 1
-                if not torch.allclose(out, D1 @ D2, atol=1e-12):
-                    fails.append(dict(clause='sparse_mm_layout', signature=f'{l1}x{l2}'))
-            except Exception as e:
-                fails.append(dict(clause='sparse_mm_raises', signature=f'{l1}x{l2}', error=f'{type(e).__name__}: {e}'[:200]))
-    samples.append(dict(pattern=grids[5], blocks=[2, 2, 2]))
-    return dict(evaluations=evals, distinct_nontrivial=len(grids), rule='all 256 pattern pairs of 2x2 block grids (exhaustive) + random grids up to 3x3, block sizes 1..4; 7 layout pairs',
-                bound='block grids <= 3x3, block sizes <= 4', failures=fails[:6], samples=samples, exhaustive=False)
+            cases.append(dict(kind='layout', l1=l1, l2=l2, dims=[rng.randrange(1, 5) * 2 for _ in range(3)], seed=rng.randrange(1 << 30)))
+    for k, c in enumerate(cases): c['k'] = k
+    repo = os.path.abspath(os.environ.get('PYPOSE_REPO', '/repo'))
+    fails = []; evals = 0; pos = 0; restarts = 0
+    def sig(c): return (f"{c['p1']}x{c['p2']} blocks {','.join(map(str, c['bs']))}" if c['kind'] == 'blocks' else f"{c['l1']}x{c['l2']} dims {c['dims']}") + f" seed {c['seed']}"
+    while pos < len(cases) and len(fails) < 6 and restarts < 6:
+        pr = subprocess.run([sys.executable, '-c', _SPARSE_CHILD], input=''.join(json.dumps(c) + '\n' for c in cases[pos:]), capture_output=True, text=True,
+                            env=dict(os.environ, PYTHONPATH=repo), cwd=repo, timeout=1500)
+        started = None; done = set()
+        for line in pr.stdout.splitlines():
+            try: d = json.loads(line)
+            except ValueError: continue
+            if 'start' in d: started = d['start']; continue
+            done.add(d['k']); evals += 1
+            if d.get('fail'):
+                c = cases[d['k']]
+                fails.append(dict(clause='bsr_bsc_' + d['fail'] if c['kind'] == 'blocks' and not d['fail'].startswith('bsr') else d['fail'], signature=sig(c),
+                                  **{k2: v for k2, v in d.items() if k2 not in ('k', 'fail')}))
+        if pr.returncode != 0 and started is not None and started not in done:
+            fails.append(dict(clause='interpreter_killed', signature=sig(cases[started]), returncode=pr.returncode, stderr=pr.stderr[-300:]))
+            pos = started + 1; restarts += 1
+        elif pr.returncode != 0:
+            fails.append(dict(clause='interpreter_killed', signature='after the last case (heap corrupted earlier)', returncode=pr.returncode, stderr=pr.stderr[-300:]))
+            break
+        else:
+            break
+    return dict(evaluations=evals, distinct_nontrivial=len(grids), rule='all 256 pattern pairs of 2x2 block grids (exhaustive) + a third of the 2x2-by-2x3 pairs + random grids up to 3x3, block sizes 1..4; 7 layout pairs',
+                bound='block grids <= 3x3, block sizes <= 4', failures=fails[:6], samples=[dict(pattern=grids[5], blocks=[2, 2, 2])], exhaustive=False)
 
 
 @obligation('C10.canary.wrong_residual_sign', functions=[f'{SOL}:CG.forward'], canary=True, max_paths=64, no_validate=True,
